@@ -256,6 +256,7 @@ def run_case(key):
     def track(name, x):
         if np.isfinite(x):
             mx[name] = max(mx[name], float(x))
+    singles = []  # (matrix, single-call output vector) of the first few frames
     for qn, Q in fr.items():
         T = T0 if qn == "cube00" else E.rotate4(T0, Q)
         M = E.to_voigt(T)
@@ -266,6 +267,8 @@ def run_case(key):
             out = _EC(np.array([M]))
             o = {k: float(out[k][0]) for k in ["bulk_modulus", "shear_modulus"] + PCT}
             ax = np.array(out["hexagonal_axis"][0], float)
+            if len(singles) < 4:
+                singles.append((M, np.array([o[k] for k in ["bulk_modulus", "shear_modulus"] + PCT] + list(ax))))
         except Exception as e:  # "for any stiffness matrix the reported ..." : must report
             V("noraise", qn, {"exception": type(e).__name__, "msg": str(e)[:200]}, exc=type(e).__name__)
             continue
@@ -356,6 +359,20 @@ def run_case(key):
 
     res["states"] = len(fr)
     res["notes"].update(mx)
+    # a stack of several matrices in one call must give, entry by entry, what each matrix
+    # gives alone (no state carried from one entry of the stack to the next)
+    if len(singles) >= 2:
+        count("stack_equals_singles")
+        res["n"] += 1
+        try:
+            out = _EC(np.array([m for m, _ in singles]))
+            for j, (_, want) in enumerate(singles):
+                got = np.array([float(out[k][j]) for k in ["bulk_modulus", "shear_modulus"] + PCT] + list(np.array(out["hexagonal_axis"][j], float)))
+                if not np.allclose(got, want, rtol=0, atol=1e-9, equal_nan=True):
+                    V("stack_equals_singles", "stack", {"entry": j, "got": got, "alone": want}, entry=j)
+                    break
+        except Exception as e:
+            V("stack_equals_singles", "stack", {"exception": type(e).__name__, "msg": str(e)[:200]}, exc=type(e).__name__)
     res["obs"] = digest(*obs)
     res["sample"] = {
         "case": key,
